@@ -34,6 +34,7 @@ type SInst struct {
 	Reserved int64
 	Shared   int64
 	Leases   []LeaseScript // consumed in order; the last one repeats
+	Creates  []int64       // v2: how long each CreatePartitions call takes (ns), in order; the last one repeats
 }
 
 type SStep struct {
@@ -57,6 +58,9 @@ func (s *SScenario) WriteHeader(w io.Writer) {
 	fmt.Fprintf(w, "scfg %d %d %d\n", s.Gen, s.Seed, len(s.Insts))
 	for i, in := range s.Insts {
 		fmt.Fprintf(w, "sinst %d %d %d %d %d %d\n", i, in.Factor, in.MaxInt, b2i(in.HasMgr), in.Reserved, in.Shared)
+		for _, d := range in.Creates {
+			fmt.Fprintf(w, "screate %d %d\n", i, d)
+		}
 		for _, l := range in.Leases {
 			fmt.Fprintf(w, "slease %d %d %d %d\n", i, l.Latency, l.When, l.Mode)
 		}
@@ -96,6 +100,9 @@ func ReadSScenario(path string) (*SScenario, error) {
 			sc.Seed = atoi(fs[2])
 		case "sinst":
 			sc.Insts = append(sc.Insts, SInst{Factor: atoi(fs[2]), MaxInt: atoi(fs[3]), HasMgr: atoi(fs[4]) != 0, Reserved: atoi(fs[5]), Shared: atoi(fs[6])})
+		case "screate":
+			i := int(atoi(fs[1]))
+			sc.Insts[i].Creates = append(sc.Insts[i].Creates, atoi(fs[2]))
 		case "slease":
 			i := int(atoi(fs[1]))
 			sc.Insts[i].Leases = append(sc.Insts[i].Leases, LeaseScript{atoi(fs[2]), atoi(fs[3]), int(atoi(fs[4]))})
@@ -139,6 +146,8 @@ type fakeLM struct {
 	mu         sync.Mutex
 	eventer2   b2.Eventer
 	failCreate bool
+	creates    []int64
+	ncreate    int
 }
 
 func (m *fakeLM) src() string { return fmt.Sprintf("S%d", m.inst) }
@@ -223,6 +232,21 @@ func (m fakeLM2) Provision(ctx context.Context) error {
 }
 func (m fakeLM2) CreatePartitions(ctx context.Context, count int) {
 	m.log.Logf(m.src(), "lm create %d", count)
+	// the call takes its time: the resource holds no lock meanwhile (repair D8), so leases can expire
+	m.mu.Lock()
+	var d int64
+	if len(m.creates) > 0 {
+		i := m.ncreate
+		if i >= len(m.creates) {
+			i = len(m.creates) - 1
+		}
+		d = m.creates[i]
+	}
+	m.ncreate++
+	m.mu.Unlock()
+	if d > 0 {
+		time.Sleep(time.Duration(d))
+	}
 }
 func (m fakeLM2) LeasePartition(ctx context.Context, id string, index uint32) time.Duration {
 	return m.lease(id, index)
@@ -282,7 +306,7 @@ func RunShared(t *testing.T, sc *SScenario, out io.Writer) {
 		var insts []*sinstRun
 		for i, ic := range sc.Insts {
 			in := &sinstRun{idx: i}
-			in.lm = &fakeLM{inst: i, store: store, log: lg, script: ic.Leases, provOK: true, createOK: true}
+			in.lm = &fakeLM{inst: i, store: store, log: lg, script: ic.Leases, creates: ic.Creates, provOK: true, createOK: true}
 			in.ctx, in.cancel = context.WithCancel(context.Background())
 			if sc.Gen == 1 {
 				r := b1.NewAzureSharedResource("acct", "cont", uint32(ic.Shared)).
